@@ -313,7 +313,9 @@ class Gen:
 
     def stmt(self):
         r = self.r
-        kinds = ["let", "assert", "val", "set_ie", "array", "aset", "snark"]
+        kinds = ["let", "assert", "val", "array", "aset", "snark"]
+        if self.depth == 0 or not self.cfg.get("set_ie_top_only"):
+            kinds.append("set_ie")
         if self.depth < self.max_depth:
             kinds += ["guarded", "ite_call", "block_if", "block_while", "block_for"]
         k = self.pick(kinds) or "let"
@@ -704,7 +706,12 @@ class CodeGen:
                 tgt = "%s[%s]" % (self.var("A", s["arr"]), ", ".join(self.ex(i) for i in ix))
         else:
             tgt = "%s[%s]" % (self.var("A", s["arr"]), self.ex(ix))
-        src = "%s = %s" % (tgt, self.ex(s["value"]))
+        if s.get("row_from") is not None:
+            # whole-row assignment: the row read at (usually secret) index row_from
+            src = "%s[%s] = %s[%s]" % (self.var("A", s["arr"]), self.ex(ix[0]), self.var("A", s["arr"]),
+                                       self.ex(s["row_from"]))
+        else:
+            src = "%s = %s" % (tgt, self.ex(s["value"]))
         self.wrap_try(s, lambda: self.emit(src))
         self.step({"kind": "aset", "desc": {"op": "aset"}})
 
@@ -726,6 +733,12 @@ class CodeGen:
         "os__exit": ["os._exit({arg})"],
         "exit_in_guard": ["guarded(PrivVal(1))(lambda: sys.exit({arg}))()"],
     }
+
+    def st_caught_exit(self, s):
+        self.emit("try:")
+        self.emit("    sys.exit(%s)" % s.get("arg", ""))
+        self.emit("except SystemExit:")
+        self.emit("    pass")
 
     def st_terminate(self, s):
         arg = s.get("arg", "")
